@@ -5,11 +5,11 @@
 (* values, fired rewrites.  One state per observation; TLC evaluates the   *)
 (* verdict operator of the L1 module the observation belongs to.           *)
 (***************************************************************************)
-EXTENDS TaskGraph, Collection, Json, IOUtils, TLCExt
+EXTENDS TaskGraph, Collection, Optimizer, Json, IOUtils, TLCExt
 Cases == ndJsonDeserialize(IOEnv.CASES)
 VARIABLE i
-Init == i = 0 /\ g = Chain3 /\ st = S0
-Next == i < Len(Cases) /\ i' = i + 1 /\ UNCHANGED <<g, st>>
+Init == i = 0 /\ g = Chain3 /\ st = S0 /\ om = M0("n")
+Next == i < Len(Cases) /\ i' = i + 1 /\ UNCHANGED <<g, st, om>>
 
 Verdict(c) ==
   CASE c.fn = "graph"   -> GraphVerdict(c)
@@ -18,6 +18,7 @@ Verdict(c) ==
     [] c.fn = "phases"  -> PhasesVerdict(c)
     [] c.fn = "rewrite" -> RewriteVerdict(c)
     [] c.fn = "fusion"  -> FusionVerdict(c)
+    [] c.fn = "optimize" -> OptimizeVerdict(c)
     [] OTHER -> "unknown-fn"
 
 IsOk(v) == v = "ok" \/ (Len(v) > 2 /\ SubSeq(v, 1, 3) = "ok-")
